@@ -115,6 +115,18 @@ def gen_cases(rng, tier):
         for e in rng.sample([-30, -24, -20, -17, -16, -13, 12, 18, 30], NVEC):
           vecs.append([(round(rng.uniform(-2, 2), 5) * 10.0 ** e) for _ in range(rng.randint(1, 6))])
         extreme = "all_amplitudes"
+      if k == 4 and (name in AMPLITUDES or name == "polynomial"):
+        # parameter vectors that differ only by -1 versus -2 in one position: hash(-1) == hash(-2) in CPython, so
+        # anything remembered under hash(parameters) would serve the wrong vector (both as floats and as integers)
+        base = list(distinct(rng, name)) if name != "polynomial" else [round(rng.uniform(-2, 2), 4) for _ in range(4)]
+        vecs = []
+        for pos in (AMPLITUDES.get(name) or range(len(base))):
+          for val in (-1.0, -2.0, -1, -2):
+            v2 = list(base)
+            v2[pos] = val
+            vecs.append(v2)
+        vecs = vecs[:16]
+        extreme = "hash_colliding_parameters"
       rs = sorted(set([round(rng.uniform(0.05, 30.0), rng.choice([2, 3, 5])) for _ in range(10)] + [30.0, rng.choice([0.01, 0.5, 1.0])]))
       if name == "zbl":
         rs = [r for r in rs if r <= 30.0]
